@@ -129,8 +129,8 @@ v("c12-twin-repr-fn", "C12", VR,
 # ---------------------------------------------------------------- C06
 DOU = "data_ops_utils.py"
 v("c06-merge-guard-reverted", "C06", DOU,
-  "        if len(ops2_columns_used.intersection(ops1_columns_produced)) > 0:\n            return None\n        if len(ops1_columns_used.intersection(ops2_columns_produced)) > 0:\n            return None  # merged step would read and assign the same column\n        new_ops = {k: ops1[k]",
-  "        if len(ops1_columns_used.intersection(ops2_columns_produced)) > 0:\n            return None\n        new_ops = {k: ops1[k]")
+  "        if len(ops2_columns_used.intersection(ops1_columns_produced)) > 0:\n            return None\n        if len(ops1_columns_used.intersection(ops2_columns_produced)) > 0:\n            return None  # merged step would read and assign the same column\n        # a column keeps the place",
+  "        if len(ops1_columns_used.intersection(ops2_columns_produced)) > 0:\n            return None\n        # a column keeps the place")
 v("c06-merged-step-reads-what-it-assigns", "C06", DOU,
   "        if len(ops1_columns_used.intersection(ops2_columns_produced)) > 0:\n            return None  # merged step would read and assign the same column\n",
   "")
@@ -1111,3 +1111,12 @@ v("d119-reindex-on-duplicate-labels", "C08", PB, "        res = res.loc[:, ~res.
 v("d118-join-cellwise-fill-of-untyped-column", "C16", PB, "                if is_null.all():\n                    # nothing on the left (its column may have no type of its own): the right column as it is\n                    res[c] = res[c + \"_tmp_right_col\"]\n                elif is_null.any():", "                if is_null.any():")
 v("d121-keyless-aggregate-over-no-rows", "C17", SM, "            sql_suffix = sql_suffix + [\"HAVING COUNT(1) > 0\"]\n", "            pass\n")
 v("d122-spark-coalesce-nested-case", "C16", SP, "                for arg in expression.args\n                for ai in coalesce_args(arg)\n", "                for ai in expression.args\n")
+
+DOU2 = "data_ops_utils.py"
+v("d124-merged-extend-moves-reassigned-column", "C06", DOU2, "        new_ops = {k: (ops2[k] if k in common_produced else ops1[k]) for k in ops1.keys()}", "        new_ops = {k: ops1[k] for k in ops1.keys() if k not in common_produced}")
+v("d125-join-delegation-reuses-on", "C06", VR, "                on=list(zip(on_a, on_b)),  # `on` may be a one-shot iterable, read above", "                on=on,")
+
+v("d126-sql-size-is-sum", "C09", SM, "    return \"COUNT(1)\"  # 0 over no rows (SUM(1) is NULL there)", "    return \"SUM(1)\"")
+v("d126-sql-count-is-sum", "C09", SM, "    return f\"COUNT({e0})\"  # non-NULL entries, 0 over no rows", "    return f\"SUM(CASE WHEN {e0} IS NOT NULL THEN 1 ELSE 0 END)\"")
+
+v("d127-ungrouped-first-through-series-agg", "C09", PB, "                    if (len(op.group_by) < 1) and (transform_op in [\"first\", \"last\"]):", "                    if False:")
